@@ -199,6 +199,7 @@ check("C30", "model_checking",
       "DESIGN.md section 6 C30 and section 12")
 
 NOT_APPLICABLE = {
+    "C29": "not built: the binding needs a quiescence signal for the language server's asynchronous publishDiagnostics (molc's FakeClient only blocks on the next one); without it the harness would race with the debounced background analysis and could raise false alarms (DESIGN.md section 12.7)",
     "C16": "static comparison of opcode/magic tables with external ground truth: no state or behaviour for a TLA+ specification to constrain (DESIGN.md section 7)",
     "C27": "data audit of ~150 declaration files against installed interpreters/typeshed: no behaviour to model in TLA+ (DESIGN.md section 7)",
 }
